@@ -102,6 +102,20 @@ def check_shape(ctx, prog, n, sup, closed, hits):
                 okk, post = w.invariant(o.st)
                 free = w.locks_free(o.st)
                 claims = [('invariant_and_locks', z3.BoolVal(bool(okk and free)))]
+                if op in ('link', 'unlink', 'take'):
+                    # lock discipline: the tree fields, and the statuses a structural decision depends on, are only touched while the global tree lock is held
+                    # (what makes check-and-insert atomic with respect to an exit's status write followed by its unlink, under every interleaving)
+                    held, disciplined, n_acc = False, True, 0
+                    for e in o.st.trace:
+                        if e[0] != 'OP':
+                            continue
+                        if e[1].startswith('static:') and e[1].endswith('TREE_MUTATION_LOCK'):
+                            held = e[2] == 'lock'
+                        elif e[1].startswith(('status', 'children', 'supervisor')):
+                            n_acc += 1
+                            disciplined = disciplined and held
+                    claims.append(('tree_lock_held_for_every_status_read_and_tree_access', z3.BoolVal(disciplined)))
+                    hits['under_lock'] = hits.get('under_lock', 0) + int(n_acc > 0)
                 if op == 'link':
                     refuse = z3.Or(z3.UGE(s0[a], DRAINING), z3.UGE(s0[b], DRAINING), z3.BoolVal(pre['children'][b] is None))
                     exp_ok = expected_after_link(pre, n, a, b) if pre['children'][b] is not None else None
@@ -154,7 +168,7 @@ def cex_native(model, rp, w):
 
 def job(sub, n, chunk, tier):
     prog, info = world.load()
-    hits = {'link_relinks': 0, 'link_refused': 0, 'unlink_effective': 0, 'take_nonempty': 0, 'terminate_depth2': 0}
+    hits = {'link_relinks': 0, 'link_refused': 0, 'unlink_effective': 0, 'take_nonempty': 0, 'terminate_depth2': 0, 'under_lock': 0}
     for (sup, closed) in chunk:
         check_shape(sub, prog, n, sup, closed, hits)
     sub.extra['hits'] = hits
@@ -182,7 +196,7 @@ def run(ctx):
     chunks = [sh[i::procs] for i in range(procs)]
     ctx.parallel(job, [(n, ch, ctx.tier) for ch in chunks if ch])
     hits = ctx.extra.get('hits', {})
-    for k in ('link_relinks', 'link_refused', 'unlink_effective', 'take_nonempty', 'terminate_depth2'):
+    for k in ('link_relinks', 'link_refused', 'unlink_effective', 'take_nonempty', 'terminate_depth2', 'under_lock'):
         ctx.note_witness('C05.' + k, hits.get(k, 0) > 0)
 
 
@@ -191,6 +205,10 @@ def replay_file(path):
     import C05_replay
     d = json.load(open(path))
     rp = d['replay']
+    if rp.get('scenario') == 'link_race':
+        bad, out = C05_replay.link_race()
+        print('native link_race:', out, bad)
+        return 1 if bad else 0
     res = C05_replay.replay(rp['rp'], rp['statuses'])
     print(res['detail'])
     return 1 if res['replayed'] else 0
